@@ -188,6 +188,12 @@ class NpCalls:
                 out = out.w(at='mixed')
             if j.geo_conflict:
                 interp.emit('kind_mix', node, kinds=j.geo_conflict, fn=fn)
+            lcs = [a.litconst for a in arrs]
+            if fn in ('vstack', 'concatenate') and lcs and all(l is not None for l in lcs) and seq.elts is not None:
+                try:
+                    out = out.w(litconst=('c', [tuple(x) if isinstance(x, (list, tuple)) else x for l in lcs for x in l[1]]))
+                except TypeError:
+                    pass
             if fn in ('vstack', 'stack', 'array'):
                 if seq.elts is not None:
                     out = out.w(rows=list(items))
